@@ -12,6 +12,17 @@ PROP = "C19"
 CORR = "Corr.C19"
 REQUIRES = ["Model.Suites", "Spec.C19"]
 PROOF_FILES = ["Proof/C19.v", "Lib/Sort.v"]
+MANIFEST = {
+    "text": "Coq theorems over all suite trees (structural induction on the nested tree; Permutation/Sorted for the "
+            "sort; ValueError iff duplicate ids) about a hand-written Gallina model of iterate_tests/filter_by_ids/"
+            "sorted_tests/list_test, tied to /repo on every run by differential execution of model and implementation "
+            "inside coqc; the oracle for a failing input is the executable statement spec_okb, proved to imply the "
+            "readable Spec.",
+    "note": "Trusted: Coq kernel + vm_compute; the harness (generators, drivers, Gallina printer); unittest.TestSuite "
+            "iteration; ids mapped to numbers order-preservingly. All theorems closed under the global context.",
+    "technique": "Coq proof (structural induction, Permutation/Sorted) + model/implementation correspondence in coqc",
+    "ref": "6 C19",
+}
 RULE = ("suite trees over Case/Plain/Custom(sort?,filter?) with ids from a small pool: exhaustive for small "
         "shapes, random to depth 4 / fan-out 4; each with a keep-set (incl. absent ids) and unpack_outer flag; "
         "non-trivial = at least one custom or nested suite and at least two leaves; distinct = distinct JSON")
